@@ -111,11 +111,30 @@ def judge(entry, k: int, got: list, mode: str, api: str) -> str | None:
     return None
 
 
+_TMP = None
+
+
 def run_case(case: dict) -> str | None:
     entry = next(e for e in corpus.base_streams(case["corpus"]) if e["name"] == case["stream"])
     k = case["cut"]
     data = entry["data"][:k]
+    def on_disk():
+        # a regular file on disk that holds just the truncated bytes
+        global _TMP
+        if _TMP is None:
+            import atexit  # noqa: PLC0415
+            import os  # noqa: PLC0415
+            import tempfile  # noqa: PLC0415
+
+            fd, _TMP = tempfile.mkstemp(prefix=f"c10_{os.getppid()}_", suffix=".jelly")
+            os.close(fd)
+            atexit.register(lambda p=_TMP: os.path.exists(p) and os.unlink(p))
+        with open(_TMP, "wb") as f:
+            f.write(data)
+        return open(_TMP, "rb")  # noqa: SIM115
+
     src = {"bytesio": lambda: io.BytesIO(data), "raw": lambda: faultio.ScheduleRaw(data),
+           "file": on_disk,
            # the connection drops: the transport raises instead of reporting end-of-file
            "raw-reset": lambda: faultio.ResetRaw(data),
            "raw-reset-7": lambda: faultio.ResetRaw(data, 7)}[case["source"]]()
@@ -124,6 +143,8 @@ def run_case(case: dict) -> str | None:
     else:
         fn = consume_flat if case["mode"] == "flat" else consume_grouped
         got, exc = fn(case["api"], src)
+    if case["source"] == "file":
+        src.close()
     return judge(entry, k, got, case["mode"], case["api"])
 
 
@@ -141,7 +162,7 @@ def shard(job) -> dict:
     else:
         cuts = range(n + 1)
     for k in cuts:
-        for source in ("bytesio", "raw", "raw-reset", "raw-reset-7"):
+        for source in ("bytesio", "raw", "raw-reset", "raw-reset-7", "file"):
             for api in ("generic", "rdflib"):
                 if api == "rdflib" and not entry["rdf11"]:
                     continue
@@ -168,7 +189,15 @@ def shard(job) -> dict:
 def run(ctx) -> None:
     size = "small" if ctx.quick else "full"
     streams = corpus.base_streams(size)
-    merged = pool.merge(pool.pmap(shard, [(size, i) for i in range(len(streams))]))
+    try:
+        merged = pool.merge(pool.pmap(shard, [(size, i) for i in range(len(streams))]))
+    finally:
+        import glob  # noqa: PLC0415
+        import os  # noqa: PLC0415
+        import tempfile  # noqa: PLC0415
+
+        for f in glob.glob(os.path.join(tempfile.gettempdir(), f"c10_{os.getpid()}_*.jelly")):
+            os.unlink(f)
     ctx.add(merged)
     ctx.coverage.update(
         evaluations=merged["evals"],
@@ -179,7 +208,8 @@ def run(ctx) -> None:
         samples=merged["samples"],
         rule=(
             "every byte offset 0..len of every base stream (6 scopes x 3 physical types x frame "
-            "sizes, namespace and empty-frame streams) x {BytesIO, non-seekable raw ending in EOF, "
+            "sizes, namespace and empty-frame streams) x {BytesIO, a regular file on disk, "
+            "non-seekable raw ending in EOF, "
             "non-seekable raw ending in ConnectionResetError (whole / 7-byte segments)} x {flat, "
             "grouped, and what a Graph holds after Graph.parse (rdflib)} x {generic, rdflib (RDF 1.1 "
             "streams)}; non-trivial = cut strictly inside a "
